@@ -3,7 +3,7 @@
    lemma proved in Proofs/, with its Print Assumptions report. *)
 From Coq Require Import List NArith ZArith Bool.
 From PyD Require Import Base.Str Base.Dec Base.PySlice Model.Tsdb Proofs.TsdbP Proofs.TsdbTie
-  Gen.TsdbGen.
+  Gen.TsdbGen Model.TsdbDate Proofs.TsdbDateP.
 Import ListNotations.
 
 (* escape and unescape are mutually inverse *)
@@ -102,6 +102,31 @@ Theorem C08_row_iter_mk : forall fs vs r, mk_row fs vs = Some r ->
                    (combine fs vs).
 Proof. exact row_iter_mk. Qed.
 Print Assumptions C08_row_iter_mk.
+
+(* dates: casting the formatted form of a date-time at second resolution, years
+   1000-9999, returns it *)
+Theorem C08_cast_format_date : forall t : dt,
+  valid_dt t = true -> (1000 <= dy t)%N -> parse_datetime (format_date t) = DSome t.
+Proof. exact cast_format_date. Qed.
+Print Assumptions C08_cast_format_date.
+
+(* every documented spelling of an instant denotes that instant: DD-MM-YY[YY] with
+   an optional day, or YYYY-MM[-DD]; the month as one or two digits or a three-letter
+   name in any letter case; two-digit years from 1993 to 2092; an optional time
+   HH:MM[:SS] after white space and/or an opening parenthesis *)
+Theorem C08_date_spellings : forall (t : dt) (a b : str),
+  valid_dt t = true -> date_spell t a -> time_spell t b -> parse_datetime (a ++ b) = DSome t.
+Proof. exact parse_spelling. Qed.
+Print Assumptions C08_date_spellings.
+
+(* the premises are satisfiable: a documented example is a spelling in that sense *)
+Theorem C08_date_spellings_nonvacuous :
+  let t := {| dy := 2002; dmo := 12; dd := 1; dh := 15; dmi := 31; TsdbDate.ds := 1 |} in
+  valid_dt t = true /\
+  date_spell t ([48;49] ++ [DASH] ++ [100;101;99] ++ [DASH] ++ [48;50])%N /\
+  time_spell t ([32] ++ [40] ++ [49;53] ++ [COLON] ++ [51;49] ++ [COLON] ++ [48;49] ++ [41])%N.
+Proof. exact spelling_instance. Qed.
+Print Assumptions C08_date_spellings_nonvacuous.
 
 (* Tie A: the regenerated kernels are the modelled ones *)
 Theorem C08_tie_escape_chain : gen_escape_chain = escape_chain.
